@@ -53,15 +53,63 @@ CONCRETE_SPLIT = [
 ]
 
 
-def run_cases(prog: Program, func, args, config=None, splits=None, pc=False, extra_hints=None) -> Merged:
+def _one_case(job):
+    prog, qual, args, config, override, extra_hints, pc, label = job
     base = build_hints(prog)
     if extra_hints:
         base.update(extra_hints)
-    merged = Merged()
-    for label, override in (splits or [("default", {})]):
-        h = dict(base)
-        h.update(override)
-        it = Interp(prog, h, dict(config or {}))
-        summ = it.run(func, dict(args), pc=pc)
-        merged.add(label, it, summ)
-    return merged
+    base.update(override)
+    it = Interp(prog, base, dict(config or {}))
+    summ = it.run(prog.func(qual), dict(args), pc=pc)
+    return label, summ.raises, summ.ret, it.events, it.contexts, it.functions_analysed
+
+
+_PROG = None
+
+
+def _worker(job):
+    job = (_PROG,) + job
+    return _one_case(job)
+
+
+def run_jobs(prog: Program, jobs):
+    """jobs: list of (key, func qualname, args, config, splits, extra_hints).  Runs every
+    (job x case split) - in parallel worker processes when possible - and returns
+    {key: Merged}."""
+    import os
+    global _PROG
+    flat = []
+    for key, qual, args, config, splits, extra_hints in jobs:
+        for label, override in (splits or [("default", {})]):
+            flat.append((key, (qual, args, config, override, extra_hints, False, label)))
+    results = None
+    if len(flat) > 1 and not os.environ.get("VSTATIC_SERIAL"):
+        try:
+            import multiprocessing as mp
+            from concurrent.futures import ProcessPoolExecutor
+            _PROG = prog
+            ctx = mp.get_context("fork")
+            with ProcessPoolExecutor(max_workers=min(len(flat), os.cpu_count() or 2, 12), mp_context=ctx) as ex:
+                results = list(ex.map(_worker, [j for _, j in flat]))
+        except Exception:
+            results = None
+    if results is None:
+        results = [_one_case((prog,) + j) for _, j in flat]
+    out = {}
+    for (key, _), (label, raises, ret, events, contexts, functions) in zip(flat, results):
+        m = out.setdefault(key, Merged())
+        m.cases.append(label)
+        for k, (w, t) in raises.items():
+            old = m.raises.get(k)
+            if old is None or (t and not old[1]):
+                m.raises[k] = (w, t)
+        for k, e in events.items():
+            m.events.setdefault(k, e)
+        m.contexts += contexts
+        m.functions |= functions
+        m.rets.append(ret)
+    return out
+
+
+def run_cases(prog: Program, func, args, config=None, splits=None, pc=False, extra_hints=None) -> Merged:
+    return run_jobs(prog, [("k", func.qualname, args, config, splits, extra_hints)])["k"]
